@@ -21,7 +21,9 @@ theorem isFatal_tie (e : GoErr) :
     isFatal e = Gen.isFatalBody (e == .nil) (match e with | .nonFatalErrors _ => true | _ => false)
       (match e with | .errorsPtr _ => true | _ => false) (match e with | .errorsPtr fs => fs.any id | _ => false) := by
   simp only [Gen.isFatalBody_eq_spec]
-  cases e <;> simp [isFatal, TieSpec.isFatalBody]
+  cases e with
+  | errorsPtr fs => cases h : fs.any id <;> simp [isFatal, TieSpec.isFatalBody, h]
+  | _ => simp [isFatal, TieSpec.isFatalBody]
 
 /-- what a regenerated return stands for, given the pair `r` that `parseCertificate` returned: object code 1 = `r`'s object;
 error code 0 nil, 1 an ordinary error of the envelope step, 2 `r`'s error unchanged, 3 the collector with its count -/
